@@ -632,6 +632,11 @@ func (r *Runner) cmd(ctx context.Context, cm syntax.Command) {
 				r.arithm(y.Init)
 			}
 			for y.Cond == nil || r.arithm(y.Cond) != 0 {
+				if r.stop(ctx) {
+					// exit, return or a cancelled context; the other loops
+					// check this as well.
+					break
+				}
 				if !r.exit.ok() || r.loopStmtsBroken(ctx, cm.Do) {
 					break
 				}
